@@ -37,7 +37,10 @@ CONSTANTS NConns,     \* connections 1..NConns
           MaxFrag,    \* request fragments a peer sends per connection
           MaxReq,     \* complete requests a peer sends per connection
           MaxSteps,   \* length of a behaviour (0: unbounded)
-          Bodies      \* BOOLEAN: the first request of a connection may carry a body that arrives after its head
+          Bodies,     \* BOOLEAN: the first request of a connection may carry a body that arrives after its head
+          Porter      \* BOOLEAN: the server is http.Porter (answers a request at once with a complete response) instead of
+                      \* http.Valet; only persistent requests and no peer close are explored then (what Porter does with a
+                      \* finished non persistent or a cut off connection is not part of this property)
 
 Conns == 1..NConns
 
@@ -75,7 +78,7 @@ Arrive(c) == /\ More /\ st[c] = "none" /\ st' = [st EXCEPT ![c] = "wait"] /\ Tic
 \* the peer sends k: a fragment of a request, or (the rest of) a complete request; one request at a time
 PeerSend(c, k) ==
     /\ More /\ st[c] \in {"wait", "open"} /\ ~eof[c] /\ inb[c] \in {"none", "frag"} /\ resp[c] \in {"none", "ended"}
-    /\ owed[c] = "-"
+    /\ owed[c] = "-" /\ (Porter => k # "N")
     /\ IF k = "frag" THEN nfrag[c] < MaxFrag /\ inb[c] = "none" ELSE nreq[c] < MaxReq
     /\ (cur[c] = "N" => FALSE)            \* after a non persistent request the peer sends nothing more
     /\ inb' = [inb EXCEPT ![c] = k]
@@ -85,7 +88,7 @@ PeerSend(c, k) ==
 \* the first request of a connection arrives in pieces: the complete head of a persistent / non persistent request that
 \* announces a body (Content-Length), ...
 PeerSendHead(c, k) ==
-    /\ Bodies /\ More /\ st[c] \in {"wait", "open"} /\ ~eof[c] /\ inb[c] \in {"none", "frag"}
+    /\ Bodies /\ (Porter => k # "N") /\ More /\ st[c] \in {"wait", "open"} /\ ~eof[c] /\ inb[c] \in {"none", "frag"}
     /\ nreq[c] = 0 /\ nreq[c] < MaxReq /\ owed[c] = "-"
     /\ inb' = [inb EXCEPT ![c] = IF k = "P" THEN "headP" ELSE "headN"]
     /\ owed' = [owed EXCEPT ![c] = k]
@@ -99,7 +102,7 @@ PeerSendBody(c, k) ==
     /\ nbp' = [nbp EXCEPT ![c] = IF k = "bpart" THEN @ + 1 ELSE @]
     /\ owed' = [owed EXCEPT ![c] = IF k = "body" THEN "-" ELSE @]
     /\ Tick /\ UNCHANGED <<st, idle, pers, cur, eof, cut, nfrag, nreq, half, resp, out, why>>
-PeerClose(c) == /\ More /\ st[c] = "open" /\ ~eof[c] /\ inb[c] = "none" /\ eof' = [eof EXCEPT ![c] = TRUE] /\ Tick
+PeerClose(c) == /\ ~Porter /\ More /\ st[c] = "open" /\ ~eof[c] /\ inb[c] = "none" /\ eof' = [eof EXCEPT ![c] = TRUE] /\ Tick
                 /\ UNCHANGED <<st, idle, pers, cur, inb, cut, nfrag, nreq, owed, nbp, half, resp, out, why>>
 Advance(dt) == /\ More /\ \E c \in Conns : st[c] = "open" /\ idle[c] < Timeout
                /\ idle' = [c \in Conns |-> IF st[c] = "open" THEN Min(Timeout, idle[c] + dt) ELSE idle[c]]
@@ -131,7 +134,8 @@ Receives(s) ==
               !.cur = [c \in Conns |-> IF req(c) THEN s.inb[c] ELSE IF bd(c) THEN s.half[c] ELSE s.cur[c]],
               !.pers = [c \in Conns |-> s.pers[c] \/ ((req(c) \/ hd(c)) /\ kind(c) = "P")],
               !.half = [c \in Conns |-> IF hd(c) THEN kind(c) ELSE IF bd(c) THEN "-" ELSE s.half[c]],
-              !.resp = [c \in Conns |-> IF req(c) \/ bd(c) THEN "active" ELSE s.resp[c]],
+              !.resp = [c \in Conns |-> IF req(c) \/ bd(c) THEN (IF Porter THEN "ended" ELSE "active") ELSE s.resp[c]],
+              !.out = [c \in Conns |-> s.out[c] \/ (Porter /\ (req(c) \/ bd(c)))],
               !.cut = [c \in Conns |-> s.cut[c] \/ (s.st[c] = "open" /\ ~got(c) /\ eof[c])]]
 
 \* serviceReps: the application yields y[c] for every response in progress; z[c]: a finished non persistent connection
